@@ -42,13 +42,17 @@ Print Assumptions C14_sorted_is_the_map.
 (** the literals of the tolerance and the order of the checks, as regenerated from the source *)
 Theorem C14_source_shape :
   gen_quadtree_ratio_lo = Dec 199 (-2) /\ gen_quadtree_ratio_hi = Dec 201 (-2) /\
-  gen_validate_calls = ["pointindex.IsQuadTree"; "slices.Max"; "pointindex.DeviationStats"]%string.
+  gen_validate_calls = ["pointindex.IsQuadTree"; "len"; "errors.New"; "index tms.TileMatrices"; "fmt.Errorf";
+                        "slices.Max"; "pointindex.DeviationStats"]%string.
 Proof. repeat split; reflexivity. Qed.
 Print Assumptions C14_source_shape.
 
-(** The composite validation adds: a tile matrix 0 exists (and some tile matrix was requested). *)
+(** The composite validation adds: some tile matrix is requested, every requested id is a tile matrix of the set,
+    and a tile matrix 0 exists. *)
 Theorem C14_validate_sound : forall t ids, validate t ids = Accept ->
-  isQuadTree t = Accept /\ ids <> [] /\ exists root, find_tm 0 (t_matrices t) = Some root.
+  isQuadTree t = Accept /\ ids <> [] /\
+  (forall i, In i ids -> exists m, find_tm i (t_matrices t) = Some m) /\
+  exists root, find_tm 0 (t_matrices t) = Some root.
 Proof. exact validate_sound_lemma. Qed.
 Print Assumptions C14_validate_sound.
 
@@ -92,28 +96,31 @@ Proof. exact accept_pixel_size_lemma. Qed.
 Print Assumptions C14_accept_pixel_size.
 
 (** Validation never yields the panic value -- under the hypotheses the proof forces: every matrix has a point of
-    origin and the CRS is not a reference-system CRS (both guaranteed for the embedded sets the CLI can load), some
-    tile matrix is requested, and the deepest requested id d satisfies 0 <= d and d + log2(tile width) + 4 < 64. *)
+    origin and the CRS is not a reference-system CRS (both hold for every decoded document / for the embedded sets),
+    and the deepest requested id d satisfies 0 <= d and d + log2(root tile width) + 4 < 64 (the internal level fits
+    a machine word).  Empty requests and ids outside the set are errors since the repair of F12. *)
 Theorem C14_validate_total : forall t ids,
   origins_present (t_matrices t) ->
   (forall d r, t_crs t <> CrsRef d r) ->
-  ids <> [] ->
   (forall root d, find_tm 0 (t_matrices t) = Some root -> max_list ids = Some d ->
      1 <= tm_tileWidth root /\ 0 <= d /\ d + Z.log2 (tm_tileWidth root) + 4 < 64) ->
   validate t ids <> VPanic.
 Proof. exact validate_total_lemma. Qed.
 Print Assumptions C14_validate_total.
 
-(** ... and the last two hypotheses cannot be dropped: the code as it stands does not check the requested ids
-    (known finding F12; the harness shows both on the real binary: `texel -tms WebMercatorQuad -z []` and `-z [52]`). *)
-Theorem C14_refuted_validate_total_empty_ids : exists t, decodeTMS gen_doc_WebMercatorQuad = Ok t /\ validate t [] = VPanic.
-Proof. exact validate_panics_empty_ids. Qed.
-Print Assumptions C14_refuted_validate_total_empty_ids.
+(** regression for F12 (repaired): on WebMercatorQuad an empty request and the ids 52, -13, 30 are errors, 24 is fine *)
+Theorem C14_regression_F12 : exists t, decodeTMS gen_doc_WebMercatorQuad = Ok t /\
+  validate t [] = Reject 12 /\ validate t [52] = Reject 13 /\ validate t [-13] = Reject 13 /\ validate t [30] = Reject 13 /\
+  validate t [24] = Accept.
+Proof. exact validate_ids_regression. Qed.
+Print Assumptions C14_regression_F12.
 
-Theorem C14_refuted_validate_total_deep_id : exists t, decodeTMS gen_doc_WebMercatorQuad = Ok t /\
-  validate t [52] = VPanic /\ validate t [51] = Accept /\ validate t [-13] = VPanic.
-Proof. exact validate_panics_deep_id. Qed.
-Print Assumptions C14_refuted_validate_total_deep_id.
+(** the level bound is needed for arbitrary records (outside the property's quantifier: built-in sets have at most
+    25 levels): a 60-level quadtree is accepted up to id 51 and panics at 52 *)
+Theorem C14_validate_total_level_bound_needed :
+  isQuadTree deep_set = Accept /\ validate deep_set [51] = Accept /\ validate deep_set [52] = VPanic.
+Proof. exact validate_level_bound_needed. Qed.
+Print Assumptions C14_validate_total_level_bound_needed.
 
 (** The built-in sets, by computation over the REGENERATED documents (finite domain: the 14 documents named in
     [builtin_names], every tile matrix of each): each decodes; the 7 of [builtin_accepted] are accepted for every
